@@ -23,6 +23,14 @@ const (
 	filler = "s3"
 )
 
+// nearNames are schema names that validation accepts next to "s1" (names only have to be non-empty and distinct as byte
+// strings) and that a sloppy key normalisation would conflate with it.
+var nearNames = []struct{ Name, Class string }{
+	{"S1", "case"},
+	{"s1 ", "trailing-space"},
+	{"\u017f1", "unicode-case"}, // LATIN SMALL LETTER LONG S: upper-cases / case-folds to "S1"
+}
+
 // kinds of configuration of one schema
 const (
 	kMIF    = "maxInflight"
@@ -116,7 +124,11 @@ func newDirect(cluster string) *limHandle {
 func newViaClusterInfo(cluster string) *limHandle {
 	ci := clusters.NewEmptyClusterInfo(cluster, nil, nil, "", nil)
 	uc := &proxyv1alpha1.UpstreamCluster{ObjectMeta: metav1.ObjectMeta{Name: cluster}}
-	for _, s := range []string{hot, side, filler} {
+	names := []string{hot, side, filler}
+	for _, nn := range nearNames {
+		names = append(names, nn.Name)
+	}
+	for _, s := range names {
 		uc.Spec.DispatchPolicies = append(uc.Spec.DispatchPolicies, proxyv1alpha1.DispatchPolicy{
 			FlowControlSchemaName: s,
 			Rules:                 []proxyv1alpha1.DispatchPolicyRule{{Verbs: []string{"*"}, APIGroups: []string{"*"}, Resources: []string{s}}},
